@@ -381,6 +381,10 @@ pub fn evaluate(d: &mut Draw, text: &str, stim: &Stimulus, presample: bool, opts
         Err(RunErr::WaitFailed) => return Outcome::skip("inconclusive: the background compile never finished"),
         Err(RunErr::Run(e)) => return Outcome::skip(format!("driver: {e}")),
         Err(RunErr::Panic(e)) => {
+            // an engine that panics without the C backend in play is C02's subject
+            if plain_run(&a, &jit_config(), stim, presample).is_err() {
+                return Outcome::skip("the plain JIT configuration panics / fails on this design (C02's subject)");
+            }
             let first: String = e.lines().next().unwrap_or("").chars().filter(|c| !c.is_ascii_digit()).take(70).collect();
             return Outcome::fail(format!("panic-in-never-swapped-run:{first}"), format!("the simulator panicked with every dispatch answering NotReady: {e}\n{text}"), input(json!(null)));
         }
@@ -411,7 +415,8 @@ pub fn evaluate(d: &mut Draw, text: &str, stim: &Stimulus, presample: bool, opts
     let first_main = kinds.iter().position(|k| *k == CallKind::Main).map(|i| i as i64).filter(|&i| i == 1 && kinds.first() == Some(&CallKind::Const));
     let mut excluded_known = 0u64;
     if let Some(fm) = first_main {
-        if points.contains(&fm) && !(opts.known_per_mille > 0 && d.below(1000) < opts.known_per_mille) {
+        // an exhausted choice sequence (below = 0) excludes the point
+        if points.contains(&fm) && !(opts.known_per_mille > 0 && d.below(1000) + opts.known_per_mille >= 1000) {
             points.retain(|&p| p != fm);
             excluded_known += 1;
         }
@@ -478,16 +483,30 @@ pub fn evaluate(d: &mut Draw, text: &str, stim: &Stimulus, presample: bool, opts
         Err(RunErr::WaitFailed) => return Outcome::skip("inconclusive: the background compile never finished (confirmation run)"),
         Err(_) => return Outcome::skip("confirmation run failed to start"),
     };
-    // is the compiled code itself different from the JIT (C02's business)?
-    let at0 = failures.iter().any(|(k, _)| *k == 0);
-    let all_fail = failures.len() == points.iter().filter(|&&p| p < total).count();
+    // is the compiled code itself different from the JIT, without any swap?
+    // Then the engines disagree on this design — C02's subject (every such
+    // root cause is a finding of C02 / C18), not a property of the swap.
+    if fresh_diff.is_some() {
+        let sync_cfg = Config {
+            aot_c_async: false,
+            ..swap_config()
+        };
+        match plain_run(&a, &sync_cfg, stim, presample) {
+            Ok(s) => {
+                if first_diff(stim, &reference.obs, &s.obs, "jit", "cc").is_some() {
+                    return Outcome::skip("the synchronous C backend and the JIT disagree on this design without any swap (C02's subject)");
+                }
+            }
+            Err(e) if e.starts_with("panic") => return Outcome::skip("the synchronous C backend panics on this design (C02's subject)"),
+            Err(_) => {}
+        }
+    }
     let sig = match (&fresh_diff, kind) {
         (None, _) => "difference-only-on-cached-instance".to_string(),
         (Some(x), _) if x.starts_with("panic") => {
             let first: String = x.lines().next().unwrap_or("").chars().filter(|c| !c.is_ascii_digit()).take(70).collect();
             format!("panic-after-swap:{first}")
         }
-        (Some(_), _) if at0 && all_fail => "compiled-code-differs-from-jit-at-every-swap-point".to_string(),
         (Some(_), CallKind::Main) if n == 1 => KF_FIRST_SETTLE.to_string(),
         (Some(_), CallKind::Main) => "swap-between-const-and-main-dispatch".to_string(),
         (Some(_), CallKind::Const) => "swap-at-settle-boundary".to_string(),
@@ -516,7 +535,11 @@ pub fn one_case(d: &mut Draw, opts: &CaseOpts) -> Outcome {
     // where SystemVerilog gives X the engines may differ (C02's finding);
     // this check is about the swap, so everything is guarded
     cfg.unguarded_per_mille = 0;
-    cfg.max_width = 160;
+    // the C emitter declines many wide expressions: mostly narrow designs
+    cfg.max_width = *d.pick(&[64u32, 32, 64, 128, 160]);
+    if let Ok(w) = std::env::var("C33_MAX_WIDTH") {
+        cfg.max_width = w.parse().unwrap_or(64);
+    }
     let mut g = gen_design(d, &cfg);
     let added = augment(d, &mut g.design);
     let cycles = 4 + d.below(8) as usize;
@@ -563,7 +586,7 @@ pub fn replay_recorded(p: &vcore::Value) -> Outcome {
         all_points: false,
         known_per_mille: 1000,
     };
-    // known_per_mille = 1000 needs a draw below 1000: an empty Draw gives 0
+    // known_per_mille = 1000 keeps the point whatever the draw
     evaluate(&mut d, text, &stim, presample, &opts, vec!["recorded".into()], if points.is_empty() { None } else { Some(points) })
 }
 
@@ -590,13 +613,14 @@ pub fn run(ctx: &Ctx) {
                 .unwrap_or_else(|_| Outcome::fail("panic:recorded", "the replay panicked", p.clone()))
         })
     });
-    let n = std::env::var("C33_CASES").ok().and_then(|s| s.parse::<usize>().ok()).unwrap_or(ctx.scale(90, 3000));
+    let n = std::env::var("C33_CASES").ok().and_then(|s| s.parse::<usize>().ok()).unwrap_or(ctx.scale(100, 3000));
     let opts = CaseOpts {
         all_points: !ctx.is_quick(),
         known_per_mille: std::env::var("C33_KNOWN_PER_MILLE").ok().and_then(|s| s.parse().ok()).unwrap_or(60),
     };
     ctx.run("designs", CaseCfg::cases(n).choices(8000).timeout_s(900).shrink_iters(40), |d| one_case(d, &opts));
     ctx.assume("the hook verif_gate gates all artifacts of a design (whole-comb and every whole-event function) at one common dispatch index; a schedule where the event artifact is ready before the comb artifact (or vice versa) is outside this check's reach");
+    ctx.assume("C33 is decided modulo C02: when the synchronous C backend and the JIT already disagree on a design without any swap, the case is skipped (counted) — the disagreement is an engine defect catalogued by C02 / C18, not a property of the swap");
     ctx.assume("every run is a fresh instance of one converted module (ProtoModuleCache), so all swap points share one compile; a difference is confirmed on a from-scratch conversion before it is reported");
     ctx.finish(
         "exploration",
